@@ -132,7 +132,11 @@ def check_retention(prog, r):
     for bi, t in ups:
         for idx, what in ((2, "drop_families"), (3, "stale_families")):
             e = rend.operand(t["args"][idx], 30)
-            calls = expr_calls(e)
+            calls = list(expr_calls(e))
+            # calls made by closures that are part of the expression (`.and_then(|gr| gr_on_disconnect(&reason, gr))`)
+            for x in walk(e):
+                if isinstance(x, tuple) and x and x[0] == "agg" and x[1] == "closure" and x[2] in prog.ix:
+                    calls += [prog.name(k) for k in prog.callees(x[2]) if k in prog.ix]
             if any(c.endswith("gr_on_disconnect") for c in calls):
                 r.ok("session_loop: %s derives from gr_on_disconnect(..)" % what)
             else:
@@ -194,7 +198,10 @@ def check_cancel(prog, r):
             follow = [b for b, tt in fv.calls(FOLLOW)]
             rearm = [b for b, si, s in field_writes(fv, "gr_restart_timer")]
             exits = fv.returns()
-            if fv.must_pass(bi, follow + rearm, exits):
+            idle = any(g[0] == "call" and g[1].endswith("GrState::is_peer_restarting") and l == {"false"} for g, l, h in flat_guards(fv, bi))
+            if idle:
+                r.ok("%s: cancel_gr_timer @%d only while GrState is not in helper mode (no restart timer can be pending)" % (short(rn), fv.line(bi)))
+            elif fv.must_pass(bi, follow + rearm, exits):
                 r.ok("%s: cancel_gr_timer @%d always followed by a GrState input / purge / re-arm" % (short(rn), fv.line(bi)))
             else:
                 # describe the escaping branch
